@@ -108,6 +108,8 @@ class NormalExtensionHeader (ExtensionHeader):
     """
     if max_length and max_length < 2:
       raise TruncatedException()
+    if len(raw) - offset < 2:
+      raise TruncatedException()
     nh,l = struct.unpack_from("!BB", raw, offset)
     max_length -= 2
     l = l * 8 + 6
